@@ -114,6 +114,16 @@ fn apply_bsd0_patch(patch: &PatchFile, base_data: &[u8]) -> Result<Vec<u8>> {
         patch.data.len()
     );
 
+    // The unpacked size comes from the (untrusted) header. One RLE control byte expands
+    // to at most 128 bytes, which bounds what a genuine patch can declare.
+    if patch.header.patch_data_size as usize > patch.data.len().saturating_mul(128) {
+        return Err(Error::invalid_format(format!(
+            "BSD0 patch declares {} unpacked bytes for {} bytes of packed data",
+            patch.header.patch_data_size,
+            patch.data.len()
+        )));
+    }
+
     let bsdiff_data = crate::compression::rle::decompress(
         &patch.data,
         patch.header.patch_data_size as usize,
@@ -158,11 +168,10 @@ fn apply_bsd0_patch(patch: &PatchFile, base_data: &[u8]) -> Result<Vec<u8>> {
     );
 
     // Calculate block positions
-    let ctrl_start = 32; // After bsdiff header
-    let data_start = ctrl_start + ctrl_block_size;
-    let extra_start = data_start + data_block_size;
-
-    // Validate block sizes
+    let ctrl_start: usize = 32; // After bsdiff header
+    // Validate block sizes (the sizes are untrusted 64-bit values)
+    let data_start = ctrl_start.saturating_add(ctrl_block_size);
+    let extra_start = data_start.saturating_add(data_block_size);
     if extra_start > bsdiff_data.len() {
         return Err(Error::invalid_format(format!(
             "BSD0 patch data too small: need {extra_start} bytes, have {}",
@@ -177,6 +186,14 @@ fn apply_bsd0_patch(patch: &PatchFile, base_data: &[u8]) -> Result<Vec<u8>> {
 
     // Number of control blocks (each is 12 bytes: 3x u32)
     let num_ctrl_blocks = ctrl_block_size / 12;
+
+    // Every output byte is taken from the data block or the extra block
+    if new_file_size > data_block.len() + extra_block.len() {
+        return Err(Error::invalid_format(format!(
+            "BSD0 new file size {new_file_size} exceeds the {} bytes the patch carries",
+            data_block.len() + extra_block.len()
+        )));
+    }
 
     // Allocate output buffer
     let mut new_data = vec![0u8; new_file_size];
